@@ -14,6 +14,7 @@ abstract interpreter see one spelling of constructs that mean the same:
   reversed(range(a, b))                 ->  range(b - 1, a - 1, -1)
   in a test position:  B if A else False -> A and B ;  True if A else B -> A or B ;  False if A else B -> not A and B ; A if A2 else True ...
   a, b = x, y                           ->  a = x ; b = y            (when y does not mention a)
+  for v in IT: acc = acc + E            ->  acc = acc + sum(E for v in IT)   (accumulation loop whose body is that one statement)
   return A if C else B                  ->  if C: return A ; return B   (a returned conditional becomes early returns, recursively)
   v = A if C else None                  ->  if C: v = A  else: v = None   (a conditional with a None arm is kept / made a statement)
   f(x, p2=y)                            ->  f(x, y)                  (second pass, needs all signatures: keywords of calls to functions
@@ -81,6 +82,18 @@ class Normalizer(ast.NodeTransformer):
 
     def visit_For(self, node):
         self.generic_visit(node)
+        # accumulation loop -> sum(...)
+        if len(node.body) == 1 and not node.orelse and isinstance(node.body[0], ast.Assign) and len(node.body[0].targets) == 1 and isinstance(node.body[0].targets[0], ast.Name):
+            st = node.body[0]
+            acc = st.targets[0].id
+            v = st.value
+            if isinstance(v, ast.BinOp) and isinstance(v.op, ast.Add):
+                for a, e in ((v.left, v.right), (v.right, v.left)):
+                    if isinstance(a, ast.Name) and a.id == acc and not any(isinstance(n, ast.Name) and n.id == acc for n in ast.walk(e)):
+                        gen = ast.GeneratorExp(elt=e, generators=[ast.comprehension(target=node.target, iter=node.iter, ifs=[], is_async=0)])
+                        call = ast.Call(func=ast.Name(id="sum", ctx=ast.Load()), args=[gen], keywords=[])
+                        new = ast.Assign(targets=[ast.Name(id=acc, ctx=ast.Store())], value=ast.BinOp(left=ast.Name(id=acc, ctx=ast.Load()), op=ast.Add(), right=call))
+                        return ast.fix_missing_locations(ast.copy_location(new, node))
         it = node.iter
         if isinstance(it, (ast.ListComp, ast.GeneratorExp)) and len(it.generators) == 1 and not node.orelse and not any(isinstance(n, (ast.Break,)) for b in node.body for n in ast.walk(b)):
             g = it.generators[0]
